@@ -1824,6 +1824,24 @@ func (ts *Service) handleUpdateTemplate(w http.ResponseWriter, r *http.Request) 
 	// Update all associated tasks
 	err = ts.updateAllAssociatedTasks(original, updated, taskIds)
 	if err != nil {
+		// The tasks have been rolled back, restore the template as well so that it stays in step with them.
+		var rerr error
+		if original.ID != updated.ID {
+			rerr = ts.templates.Create(original)
+			for _, taskId := range taskIds {
+				if rerr == nil {
+					rerr = ts.templates.AssociateTask(original.ID, taskId)
+				}
+			}
+			if rerr == nil {
+				rerr = ts.templates.Delete(updated.ID)
+			}
+		} else {
+			rerr = ts.templates.Replace(original)
+		}
+		if rerr != nil {
+			ts.diag.Error("error rolling back template", rerr, keyvalue.KV("template", original.ID))
+		}
 		httpd.HttpError(w, err.Error(), true, http.StatusInternalServerError)
 		return
 	}
